@@ -1,2 +1,114 @@
-pub fn main_envelope() { eprintln!("not built yet"); std::process::exit(2); }
-pub fn main_idcoerce() { eprintln!("not built yet"); std::process::exit(2); }
+//! `gqlv envelope`: Response<T> / Error of the runtime crate on spec-shaped bodies (C15).
+//! `gqlv idcoerce`: the two ID helper functions of graphql_client::serde_with (C16a).
+
+use crate::{emit, quiet_panics, read_jobs, take_panic};
+use graphql_client::{Error as GqlError, Response};
+use serde_json::{json, Map, Value};
+
+type R = Response<Map<String, Value>>;
+
+fn envelope_one(body: &Value) -> Value {
+    let parsed: Result<R, _> = serde_json::from_value(body.clone());
+    let text = body.to_string();
+    let parsed_str: Result<R, _> = serde_json::from_str(&text);
+    match (parsed, parsed_str) {
+        (Ok(r), Ok(rs)) => {
+            let same_routes = r == rs;
+            let reser = serde_json::to_value(&r).unwrap_or(Value::Null);
+            let back: Result<R, _> = serde_json::from_value(reser.clone());
+            let roundtrip = matches!(&back, Ok(b) if *b == r);
+            let back_str: Result<R, _> = serde_json::from_str(&serde_json::to_string(&r).unwrap_or_default());
+            let roundtrip_str = matches!(&back_str, Ok(b) if *b == r);
+            let mut displays = Vec::new();
+            let mut err_roundtrip = true;
+            if let Some(errs) = &r.errors {
+                for e in errs {
+                    displays.push(format!("{}", e));
+                    let ev = serde_json::to_value(e).unwrap_or(Value::Null);
+                    let eb: Result<GqlError, _> = serde_json::from_value(ev);
+                    err_roundtrip &= matches!(&eb, Ok(b) if b == e);
+                    let cl = e.clone();
+                    err_roundtrip &= cl == *e;
+                }
+            }
+            json!({"parse": "ok", "same_routes": same_routes, "reser": reser, "roundtrip": roundtrip,
+                   "roundtrip_str": roundtrip_str, "err_roundtrip": err_roundtrip, "displays": displays,
+                   "data_is_some": r.data.is_some(), "errors_is_some": r.errors.is_some(),
+                   "extensions_is_some": r.extensions.is_some()})
+        }
+        (Err(e), _) => json!({"parse": "err", "msg": e.to_string(), "route": "from_value"}),
+        (_, Err(e)) => json!({"parse": "err", "msg": e.to_string(), "route": "from_str"}),
+    }
+}
+
+pub fn main_envelope() {
+    quiet_panics();
+    for job in read_jobs() {
+        let id = job.get("id").cloned().unwrap_or(Value::Null);
+        let body = job.get("body").cloned().unwrap_or(Value::Null);
+        let r = std::panic::catch_unwind(|| envelope_one(&body));
+        match r {
+            Ok(mut v) => {
+                v["id"] = id;
+                emit(&v)
+            }
+            Err(_) => emit(&json!({"id": id, "parse": "panic", "msg": take_panic()})),
+        }
+    }
+}
+
+#[derive(serde::Deserialize)]
+struct IdHolder {
+    #[serde(deserialize_with = "graphql_client::serde_with::deserialize_id")]
+    v: String,
+}
+
+#[derive(serde::Deserialize)]
+struct OptIdHolder {
+    #[serde(deserialize_with = "graphql_client::serde_with::deserialize_option_id")]
+    v: Option<String>,
+}
+
+#[derive(serde::Deserialize)]
+struct OptIdHolderDefault {
+    #[serde(default, deserialize_with = "graphql_client::serde_with::deserialize_option_id")]
+    v: Option<String>,
+}
+
+fn show<T>(r: Result<T, serde_json::Error>, f: impl Fn(T) -> Value) -> Value {
+    match r {
+        Ok(v) => json!({"ok": f(v)}),
+        Err(e) => json!({"err": e.to_string()}),
+    }
+}
+
+/// job: {"id", "value": <json> | absent when "absent": true}
+pub fn main_idcoerce() {
+    quiet_panics();
+    for job in read_jobs() {
+        let id = job.get("id").cloned().unwrap_or(Value::Null);
+        let absent = job.get("absent").and_then(|v| v.as_bool()).unwrap_or(false);
+        let holder = if absent {
+            json!({})
+        } else {
+            json!({"v": job.get("value").cloned().unwrap_or(Value::Null)})
+        };
+        let text = holder.to_string();
+        let r = std::panic::catch_unwind(|| {
+            json!({
+                "id_value": show(serde_json::from_value::<IdHolder>(holder.clone()), |h| json!(h.v)),
+                "id_str": show(serde_json::from_str::<IdHolder>(&text), |h| json!(h.v)),
+                "opt_value": show(serde_json::from_value::<OptIdHolder>(holder.clone()), |h| json!(h.v)),
+                "opt_str": show(serde_json::from_str::<OptIdHolder>(&text), |h| json!(h.v)),
+                "optdefault_value": show(serde_json::from_value::<OptIdHolderDefault>(holder.clone()), |h| json!(h.v)),
+            })
+        });
+        match r {
+            Ok(mut v) => {
+                v["id"] = id;
+                emit(&v)
+            }
+            Err(_) => emit(&json!({"id": id, "panic": take_panic()})),
+        }
+    }
+}
